@@ -253,6 +253,35 @@ def sec_C19():
     r.append(sorted(st.init().items()))
     for x, y in itertools.product([False, True], [-3, -2, -1]):
         r.append([x, y, sorted(st.step(dict(x=x, y=y)).items())])
+    # an assembly of two components; the recorded history
+    def comp(own, other, rule, init):
+        a = trl.Automaton()
+        a.declare_variables(**{own: (0, 3), other: (0, 3), '_m': 'bool'})
+        a.varlist = dict(env=[other], sys=[own, '_m'], impl=[own, '_m'])
+        a.prime_varlists()
+        a.init['impl'] = init
+        a.action['impl'] = rule
+        return steps.AutomatonStepper(a)
+    asm = steps.Assembly()
+    asm.machines['up'] = comp('u', 'v', r"(u' = ite(u < 3, u + 1, 0)) /\ (_m' <=> ~ _m)", r'(u = 0) /\ ~ _m')
+    asm.machines['follow'] = comp('v', 'u', r"(v' = u) /\ (_m' <=> (u = 3))", r'(v = 2) /\ _m')
+    asm.init()
+    for _ in range(5):
+        asm.step()
+    r.append([[sorted(d.items()) for d in asm.past], sorted(asm.state.items())])
+    # a component without variables of its own (a monitor): enabled steps return nothing to assign
+    mon = trl.Automaton()
+    mon.declare_variables(x='bool', y=(0, 3))
+    mon.varlist = dict(env=['x', 'y'], sys=[], impl=[])
+    mon.prime_varlists()
+    mon.init['impl'] = 'TRUE'
+    mon.action['impl'] = r"(y < 3) \/ x"
+    ms = steps.AutomatonStepper(mon)
+    for x, y in itertools.product([False, True], [0, 3]):
+        try:
+            r.append(['monitor', x, y, sorted(ms.step({'x': x, 'y': y, "x'": x, "y'": y}).items())])
+        except ValueError:
+            r.append(['monitor', x, y, 'blocked'])
     r.append([steps.add_prefix(dict(a=1, _m=2), 'c') if hasattr(steps, 'add_prefix') else None,
               steps.omit_prefix(dict(a=1, c_m=2), 'c') if hasattr(steps, 'omit_prefix') else None])
     return r
